@@ -100,3 +100,18 @@ package table
 //@   props C21
 //@   light
 //@   assert[copy-of-small-key] before call append : arg1 == mi.small.key
+
+// NewMergeIterator: one input is returned as it is; two inputs become left (earlier, wins on
+// equal keys) and right; more are split in the middle, the earlier half on the left, so the
+// precedence order of the inputs is the left-to-right order of the tree.
+//@ func NewMergeIterator
+//@   props C21
+//@   light
+//@   assert[earlier-input-left] before call setIterator#1 : arg1 == iters[0]
+//@   assert[later-input-right] before call setIterator#2 : arg1 == iters[1]
+//@   assert[direction-kept] before call setIterator#1 : mi.reverse == reverse
+//@   assert[single-input-as-is] before return#2 : result == iters[0]
+//@   assert[earlier-half-first] before call NewMergeIterator#2 : len(arg0) == len(iters) / 2 && sameRegion(arg0, iters) && arg1 == reverse
+//@   assert[later-half-second] before call NewMergeIterator#3 : len(arg0) == len(iters) - len(iters) / 2 && arg1 == reverse
+//@   assert[halves-in-order] before call NewMergeIterator#1 : len(arg0) == 2 && arg0[1] == ret(NewMergeIterator#3) && arg1 == reverse
+
